@@ -367,7 +367,12 @@ func (e *Evaluator) evalEachStmt(node *ast.EachStmt, env *object.Env) object.Obj
 		return arrObj
 	}
 
-	elems := arrObj.(*object.Array).Elements
+	arr, ok := arrObj.(*object.Array)
+	if !ok {
+		return e.newError(node, fail.ErrEachExpectsArray, arrObj.Type())
+	}
+
+	elems := arr.Elements
 	elemsLen := len(elems)
 
 	// evaluate alternative block if array is empty
